@@ -270,6 +270,7 @@ type Exec struct {
 	aborted  string
 	guards   []*guardInfo
 	uncontracted map[string]int
+	accessUsed   map[string]bool // `at write|read S.f` clauses that met an access
 	usedContracts map[string]bool
 	obSeen   map[string]int
 	returns  int
